@@ -1,4 +1,4 @@
-\* (V) model-bound validation against the REPAIRED model (the repairs committed in /repo: ec05f82 c96f37d c700d6c; continue still responds before its fallible step, the forwarders still ignore `terminated`, known finding c)
+\* (V) model-bound validation against the REPAIRED model (the repairs committed in /repo: ec05f82 6734d0e 96415ff; continue still responds before its fallible step, the forwarders still ignore `terminated`, known finding c)
 SPECIFICATION TraceSpec
 CONSTANTS
   MaxReq = 100000
